@@ -23,6 +23,8 @@ use crate::opcodes::OpcodeKind;
 
 impl Generator {
     pub(super) fn generate_internal(&mut self, source: &mut GenerationSource) -> Result<Vec<u8>> {
+        #[cfg(feature = "verif")]
+        crate::verif::on_phase(self, crate::verif::Phase::Begin, 0, source);
         // decide if we'll use FRAME (only for protocol >= 4, randomly chosen)
         let use_frame = self.state.version >= Version::V4 && source.gen_bool();
 
@@ -46,6 +48,8 @@ impl Generator {
             self.min_opcodes
         };
 
+        #[cfg(feature = "verif")]
+        crate::verif::on_phase(self, crate::verif::Phase::Target, target_opcodes, source);
         // generation phase - allow stack to grow and build complex structures
         for _ in 0..target_opcodes {
             let valid_ops = self.get_valid_opcodes();
@@ -57,6 +61,8 @@ impl Generator {
             self.emit_and_process(chosen, source)?;
         }
 
+        #[cfg(feature = "verif")]
+        crate::verif::on_phase(self, crate::verif::Phase::BodyDone, 0, source);
         // cleanup phase - reduce stack to exactly 1 item for STOP
         self.cleanup_for_stop();
 
@@ -79,6 +85,8 @@ impl Generator {
             self.output[pos + 1..pos + 9].copy_from_slice(&(frame_size as u64).to_le_bytes());
         }
 
+        #[cfg(feature = "verif")]
+        crate::verif::on_phase(self, crate::verif::Phase::Finish, 0, source);
         Ok(self.output.clone())
     }
 }
